@@ -21,7 +21,7 @@ theorem if_runs_exactly_one_arm (f : Nat) (c : Expr) (t : Stmt) (e : Option Stmt
             | .ok (_, sig) σ2 => .ok (.nil, sig) σ2
             | .abn x => .abn x)
          | none => .ok (.nil, .none) σ1) := by
-  rw [evalS]; simp only [h0, hc]
+  rw [evalS]; simp only [guardErr, ER.seq, Res.bind, h0, hc]
   cases truthy cv <;> simp [nilOk]
   · cases e <;> simp
     rename_i el
@@ -45,7 +45,7 @@ theorem while_unfold (f : Nat) (c : Expr) (b : Stmt) (env : Nat) (repl : Bool) (
          | .ok (_, .none) σ2 => whileLoop P f c b env repl σ2
          | .abn x => .abn x)
       else .ok (.nil, .none) σ1 := by
-  rw [whileLoop]; simp only [hc]
+  rw [whileLoop]; simp only [guardErr, ER.seq, Res.bind, hc]
   cases truthy cv <;> simp [nilOk]
   cases evalS P f b env repl σ1 with
   | abn x => rfl
@@ -63,7 +63,7 @@ theorem for_unfold (f : Nat) (c ie : Expr) (b : Stmt) (env : Nat) (repl : Bool) 
         (match evalE P f ie env repl σ2 with
          | .ok (_, sig3) σ3 => if sig3 ≠ .none then .ok (.nil, sig3) σ3 else forLoop P f c (some ie) b env repl σ3
          | .abn x => .abn x) := by
-  rw [forLoop]; simp only [hc, hb]
+  rw [forLoop]; simp only [guardErr, ER.seq, Res.bind, hc, hb]
   simp [ht]
   cases sig <;> simp [nilOk]
   all_goals
@@ -75,14 +75,14 @@ theorem for_unfold (f : Nat) (c ie : Expr) (b : Stmt) (env : Nat) (repl : Bool) 
 theorem for_stops_on_falsy (f : Nat) (c : Expr) (inc : Option Expr) (b : Stmt) (env : Nat) (repl : Bool) (σ σ1 : Store) (cv : Val)
     (hc : evalE P f c env repl σ = .ok (cv, .none) σ1) (ht : truthy cv = false) :
     forLoop P (f + 1) c inc b env repl σ = .ok (.nil, .none) σ1 := by
-  rw [forLoop]; simp only [hc]; simp [ht, nilOk]
+  rw [forLoop]; simp only [guardErr, ER.seq, Res.bind, hc]; simp [guardErr, ER.seq, Res.bind, ht, nilOk]
 
 /-- the initializer runs once, in the loop's own fresh scope, before the first test -/
 theorem for_initializer_once (f : Nat) (i : Stmt) (c : Expr) (inc : Option Expr) (b : Stmt) (env : Nat) (repl : Bool)
     (σ σ2 : Store) (v : Val) (h0 : σ.hadError = false)
     (hi : evalS P f i σ.envs.length repl (σ.newEnv (some env)).1 = .ok (v, .none) σ2) :
     evalS P (f + 1) (.forS (some i) c inc b) env repl σ = forLoop P f c inc b σ.envs.length repl σ2 := by
-  rw [evalS]; simp only [h0]
+  rw [evalS]; simp only [guardErr, ER.seq, Res.bind, h0]
   simp [Store.newEnv] at hi ⊢
   simp [hi]
 
@@ -91,7 +91,7 @@ theorem toplevel_signal_is_error (f : Nat) (s : Stmt) (ss : List Stmt) (env : Na
     (hs : evalS P f s env repl σ = .ok (v, sig) σ1) (hsig : sig ≠ .none) :
     ∃ msg line, interpretLoop P (f + 1) (s :: ss) env repl σ = .ok () (σ1.rte msg line) ∧
       (sig = .brk line ∨ sig = .cont line ∨ ∃ x, sig = .ret line x) := by
-  rw [interpretLoop]; simp only [hs]
+  rw [interpretLoop]; simp only [guardErr, ER.seq, Res.bind, hs]
   cases sig with
   | none => exact absurd rfl hsig
   | brk l => exact ⟨_, l, rfl, Or.inl rfl⟩
@@ -102,7 +102,7 @@ theorem toplevel_signal_is_error (f : Nat) (s : Stmt) (ss : List Stmt) (env : Na
 theorem break_continue_signals (f : Nat) (line env : Nat) (repl : Bool) (σ : Store) (h0 : σ.hadError = false) :
     evalS P (f + 1) (.breakS line) env repl σ = .ok (.nil, .brk line) σ ∧
     evalS P (f + 1) (.continueS line) env repl σ = .ok (.nil, .cont line) σ := by
-  constructor <;> (rw [evalS]; simp [h0])
+  constructor <;> (rw [evalS]; simp [guardErr, ER.seq, Res.bind, h0])
 
 end
 end Borno.Props.C05
